@@ -4,7 +4,7 @@ Streams
   infer_size_py(translator)        Gen.inferSizeImpl       vs tensordict.utils.infer_size_impl      (translation validation)
   infer_size_local_py(translator)  Gen.inferSizeImplLocal  vs tensordict.utils._infer_size_impl
   infer_size_table                 InferSize.closedForm    vs the Python function (the decision table the theorems are stated with)
-  infer_size_vs_torch              InferSize.closedForm    vs torch's own rule `torch.empty(numel).view(shape)` (accept/reject + shape)
+  infer_size_vs_torch              InferSize.torchInfer    vs torch's own rule `torch.empty(numel).view(shape)` (accept/reject + shape)
 oracle
   infer_size_pair                  the two Python copies return the same list / raise the same exception class
   infer_size_callers               TensorDict.view / reshape (use the `_` copy) vs TensorDictBase.unflatten / _legacy view (use the eager copy)
@@ -109,7 +109,9 @@ def infer_size(run):
         # torch's own rule (numel is a count there; sizes must fit int64)
         if numel >= 0 and all(abs(s) < 2 ** 31 for s in shp) and numel < 2 ** 31:
             t = _torch_rule(shp, numel)
-            mm = m[3] if m[3][0] == "ok" else "err"
+            # m[4] = InferSize.torchInfer, the Lean transcription of at::infer_size (theorem infer_size_matches_torch
+            # relates it to the translated tensordict code for every input)
+            mm = m[4] if m[4][0] == "ok" else "err"
             run.corr("infer_size_vs_torch", case, t, mm)
     run.sample({"stream": "infer_size", "case": [[2, -1, 3], 12], "model": drv.ask(sx("c18.infer_size", [2, -1, 3], 12))})
     run.sample({"stream": "infer_size", "case": [[-1, 0], 0], "model": drv.ask(sx("c18.infer_size", [-1, 0], 0))})
